@@ -117,12 +117,18 @@ func (c *serverConn) connect(header *parser.PacketHeader, decode parser.Decode) 
 	)
 
 	if c.server.acceptAnyNamespace {
-		nsp, _ = c.server.namespaces.getOrCreate(
+		var created bool
+		nsp, created = c.server.namespaces.getOrCreate(
 			header.Namespace,
 			c.server,
 			c.server.adapterCreator,
 			c.server.parserCreator,
 		)
+		if created && nsp.Name() != "/" {
+			// As `Server.Of` does. Not on another goroutine: the handlers are the place to set up
+			// the namespace (middlewares, connection handlers) before the socket is added to it.
+			c.server.newNamespaceHandlers.forEach(func(handler *ServerNewNamespaceFunc) { (*handler)(nsp) }, false)
+		}
 	} else {
 		nsp, ok = c.server.namespaces.get(header.Namespace)
 		if !ok {
